@@ -977,13 +977,18 @@ pub fn execute(case: &StreamCase, focus: Focus, st: &mut Stats) -> Exec {
                 }
                 Ok(Ok((rl, rp, Some(c)))) => {
                     let consumed = input.len().wrapping_sub(rl);
-                    let len = if input.len() >= 20 { ((input[18] as usize) << 8) | input[19] as usize } else { usize::MAX };
+                    // "after any bytes skipped in front of the storage-header pattern": the skipper
+                    // of the pinned tree refuses input that does not start with the pattern, but the
+                    // statement allows it to skip there like the parser does; the record it skipped
+                    // is the one at the first pattern (independent search)
+                    let shift = naive_find(input).unwrap_or(0);
+                    let len = if input.len() >= shift + 20 { ((input[shift + 18] as usize) << 8) | input[shift + 19] as usize } else { usize::MAX };
                     let suffix = rp + rl == input.as_ptr() as usize + input.len() && rl < input.len();
-                    if input.is_empty() || !suffix || c as usize != consumed || consumed != 16 + len || consumed == 0 {
-                        v.push(Violation::new("C04.d", "skipper-count", format!("dlt_consume_msg at {}: reported {} consumed, distance {}, 16 + LEN = {}, strict suffix = {}", pos, c, consumed, len.wrapping_add(16), suffix)));
+                    if input.is_empty() || !suffix || c as usize != consumed || consumed != shift.wrapping_add(16).wrapping_add(len) || consumed == 0 {
+                        v.push(Violation::new("C04.d", "skipper-count", format!("dlt_consume_msg at {}: reported {} consumed, distance {}, shift {} + 16 + LEN = {}, strict suffix = {}", pos, c, consumed, shift, len.wrapping_add(16).wrapping_add(shift), suffix)));
                         break;
                     }
-                    index.push(pos);
+                    index.push(pos + shift);
                     pos += consumed;
                 }
                 Ok(Ok((rl, _, None))) => {
